@@ -101,7 +101,15 @@ class Program:
             for f in self.by_key.get(key, []):
                 self.summarizable.add(f.name)
         for name, c in self.consts.items():
-            self.consts_by_tail[name.split('::')[-1] if '<impl at' not in name and 'promoted' not in name else name] = c
+            if '<impl at' in name or 'promoted' in name:
+                self.consts_by_tail[name] = c
+                continue
+            segs = name.split('::')
+            for k in range(len(segs)):
+                suf = '::'.join(segs[k:])
+                if suf.startswith('{constant#'):
+                    continue
+                self.consts_by_tail.setdefault(suf, c)
 
     def enum_index(self, ty, var):
         vs = STD_ENUMS.get(ty)
@@ -164,6 +172,7 @@ class Engine:
         self.inconclusive = []
         self.depth_limit = 400
         self.check_tags = {}
+        self._describe = None
 
     # ------------------------------------------------------------------ symbols
     def fresh_bv(self, name, bits):
@@ -289,6 +298,7 @@ class Engine:
             else:
                 self._check(); m = self.solver.model()
             v = Violation('assert', label, m, self.decisions[:self.pos])
+            describe = describe or self._describe
             if describe is not None:
                 v.data = describe(m)
             self.violations.append(v)
@@ -323,6 +333,7 @@ class Engine:
         self.decisions = decisions; self.pos = 0
         self.solver = z3.Solver()
         self.solver.set('timeout', self.timeout_ms)
+        self._describe = describe
         self.callstack = []
         self.frame_subst = [{}]
         self.collect = None
@@ -777,10 +788,12 @@ class Engine:
             return self.run(cf, [])
         # named constant / unit variant / unit struct
         path = strip_generics(c)
-        tail = path.split('::')[-1]
-        cv = self.prog.consts_by_tail.get(tail)
-        if cv is None:
-            cv = self.prog.consts.get(path)
+        segs0 = path.split('::')
+        cv = self.prog.consts.get(path)
+        k0 = 0
+        while cv is None and k0 < len(segs0):
+            cv = self.prog.consts_by_tail.get('::'.join(segs0[k0:]))
+            k0 += 1
         if cv is not None:
             if isinstance(cv, P.Fn):
                 return self.run(cv, [])
@@ -832,10 +845,8 @@ class Engine:
             if isinstance(v, Enum):
                 return Int(self.prog.enum_index(v.ty or STD_VARIANT_OWNER.get(v.var), v.var), 64, True)
             if isinstance(v, Int):
-                t = v.t
-                if type(t) is int:
-                    return Int(to_signed(t, v.bits) if v.sg else t, 64, True)
-                return Int(z3.SignExt(64 - v.bits, t) if v.sg else z3.ZeroExt(64 - v.bits, t), 64, True)
+                # field-less enum stored as its discriminant: the discriminant has the enum's repr type
+                return Int(v.t, v.bits, v.sg)
             import models
             r = models.discr_of_opaque(self, v)
             if r is not None:
